@@ -1180,7 +1180,18 @@ func leLenFact(cond ssa.Value, truth bool, x ssa.Value, S ssa.Value) (int64, boo
 			return 0, false
 		}
 	}
-	call, ok := stripWiden(Rr).(*ssa.Call)
+	// len(S), possibly converted to an unsigned type: such a conversion of a non-negative value never yields more than the value
+	rv := stripWiden(Rr)
+	if cv, isConv := rv.(*ssa.Convert); isConv {
+		if bt, isBasic := cv.Type().Underlying().(*types.Basic); isBasic && bt.Info()&types.IsUnsigned != 0 {
+			if inner, isCall := cv.X.(*ssa.Call); isCall {
+				if bi, isB := inner.Common().Value.(*ssa.Builtin); isB && bi.Name() == "len" {
+					rv = inner
+				}
+			}
+		}
+	}
+	call, ok := rv.(*ssa.Call)
 	if !ok {
 		return 0, false
 	}
